@@ -8,7 +8,9 @@ pub mod apkt;
 pub mod bridge;
 pub mod checks;
 pub mod findings;
+pub mod gen;
 pub mod guard;
+pub mod libcodec;
 pub mod refcodec;
 pub mod report;
 pub mod rng;
